@@ -902,6 +902,8 @@ EXPECTED_CLASS = {
     "OutOfServiceInstruction": ("OutOfService",),
     "RepositionInstruction": ("Repositioning",),
 }
+RAW_EXPECTED = {"BoardNow": ("ServicingTrip",), "QueueNow": ("ChargeQueueing",), "TripRoute": ("DispatchTrip",), "StationRoute": ("DispatchStation", "ChargingStation"),
+                "BaseRoute": ("DispatchBase",), "RepositionRoute": ("Repositioning",)}
 STATE_FIELDS = ("vehicles", "stations", "bases", "requests", "v_locations", "r_locations", "s_locations", "b_locations",
                 "v_search", "r_search", "s_search", "b_search")
 HOLDERS = ("ChargingStation", "ChargingBase", "ChargeQueueing", "ReserveBase", "DispatchTrip", "ServicingTrip")
@@ -935,7 +937,7 @@ class C09Atomic(Monitor):
         else:
             h.flag("accepted_probe")
             got = sname(va)
-            if got not in EXPECTED_CLASS[itype]:
+            if got not in (EXPECTED_CLASS.get(itype) or RAW_EXPECTED[instruction.kind]):
                 yield Violation("C09", f"accepted {itype} left the vehicle in {got}", {"instruction": repr(instruction), "previous": prev})
             others = [x for x in after.vehicles.values() if x.id != vid and x != before.vehicles[x.id]]
             if others:
